@@ -286,6 +286,26 @@ func c12Adversary(d *vCtx) error {
 				}
 			}
 		}
+		// a peer that lies consistently: the size it announces is replaced and the echo the honest side sends back is
+		// restored, so that the transfer goes on and data arrives for a file of an impossible size
+		for bi := range bases {
+			for mi, m := range layouts[bi] {
+				if m.Typ != "SIZE" {
+					continue
+				}
+				for mj := mi + 1; mj < len(layouts[bi]) && mj <= mi+2; mj++ {
+					m2 := layouts[bi][mj]
+					if m2.Typ != "SUCC" || m2.Dir == m.Dir {
+						continue
+					}
+					for _, val := range []string{"-5", "-1", "-4611686018427387904", "1", "4611686018427387904"} {
+						jobs = append(jobs, job{bi, e2eMut{G: m.G, New: val, Label: "SIZE=" + val + "+echo restored"},
+							&e2eMut{G: m2.G, New: m.Raw, Label: "SUCC=original"}})
+					}
+					break
+				}
+			}
+		}
 		d.set("double_mutations", len(jobs))
 		for bi := range bases {
 			for mi, m := range layouts[bi] {
